@@ -105,6 +105,17 @@ static std::string num(double x) { char b[40]; std::snprintf(b, sizeof b, "%.17g
 static LD Mrad(const Cfg& c, double lat) { LD e2 = (LD)c.f * (2 - (LD)c.f), s = sinl((LD)lat * M_PIl / 180), w = 1 - e2 * s * s; return (LD)c.a * (1 - e2) / (w * sqrtl(w)); }
 static LD Ncos(const Cfg& c, double lat) { LD e2 = (LD)c.f * (2 - (LD)c.f), s = sinl((LD)lat * M_PIl / 180), w = 1 - e2 * s * s; return (LD)c.a / sqrtl(w) * cosl((LD)lat * M_PIl / 180); }
 
+// relative accuracy to expect of k (and, in radians, of gamma) at a latitude: "consistent with 10 nm" means 10 nm over
+// the distance from the apex of the cone (k and gamma are ratios / directions of that radius vector)
+static double krel_at(const c11::Proj& P, const Cfg& c, double lat) {
+  c11::SC p = c11::sc_deg(lat); if (c.cls == 0 && P.n == 0) return 1e-12;
+  if (P.cyl || P.n == 0) return 1e-12;
+  Q u = P.unit_scale(p); if (!c11::fin(u) || u <= 0) return 1e-12;
+  double rc = std::fabs(c11::dbl(P.kap * u * P.E.a * P.E.m(p) / P.n)) / (c.cls == 2 ? c11::dbl(P.kap * P.kap) : 1.0);
+  double kk = c11::dbl(P.kap * u);
+  return 1e-12 + 4 * 10e-9 * (c.a / 6378137.0) * std::fmax(1.0, kk) / rc;
+}
+
 // ---------------------------------------------------------------------------------------------------------------
 // pt: cfg(13) northp lon0 lat lon -- one point through Forward and Reverse with all point-level oracles
 static Reg r_pt("pt", [](const Args& a) {
@@ -141,8 +152,11 @@ static Reg r_pt("pt", [](const Args& a) {
   if (c.cls == 0 || std::fabs(g) < 179) {
     LD dN = ((LD)rlat - lat) * (M_PIl / 180) * Mrad(c, lat), dE = (LD)Math::AngDiff(lon, rlon) * (M_PIl / 180) * Ncos(c, lat);
     if (std::fabs(lat) == 90) dE = 0;
-    double dist = (double)hypotl(dN, dE), tol = tol_ground(c, R, k);
-    if (!(dist <= tol)) bad("reverse-forward", "Reverse(Forward(" + num(lat) + ", " + num(lon) + ")) = (" + num(rlat) + ", " + num(rlon) + "), off by " + num(dist) + " m on the ground, tolerance " + num(tol));
+    // "about 10 nm": on the ellipsoid, or in the plane (where a scale far from 1 compresses one direction: Albers
+    // north-south scale is 1/k, so near a pole with k >> 1 a sub-nanometre plane error is many nanometres of latitude)
+    LD kew = k, kns = c.cls == 2 ? 1 / (LD)k : (LD)k;
+    double dist = (double)hypotl(dN, dE), tol = tol_ground(c, R, k), distp = (double)hypotl(dN * kns, dE * kew), tolp = tol_plane(c, R, 1.0);
+    if (!(dist <= tol || distp <= tolp)) bad("reverse-forward", "Reverse(Forward(" + num(lat) + ", " + num(lon) + ")) = (" + num(rlat) + ", " + num(rlon) + "), off by " + num(dist) + " m on the ground (" + num(distp) + " m in the plane), tolerance " + num(tol) + " (" + num(tolp) + ")");
     if (std::cos(lat * Math::degree()) > 1e-3 && R < 1e3 * c.a) {
       if (!(std::fabs(rk - k) <= 1e-9 * k)) bad("reverse-forward-k", "k from Reverse " + num(rk) + " vs Forward " + num(k));
       double dg = std::fabs(Math::AngDiff(g, rg)); if (!(dg <= 1e-9)) bad("reverse-forward-gamma", "gamma from Reverse " + num(rg) + " vs Forward " + num(g));
@@ -193,24 +207,24 @@ static Reg r_cfg("cfgprops", [](const Args& a) {
   emit(hx(o.lat0()) + " " + hx(o.k0()));
   double l1, l2; stdlats(c, l1, l2);
   c11::Proj P = oracle(c);
-  auto same_proj = [&](const Obj& p, const Obj& q, const char* rel, const std::string& what) {
+  auto same_proj = [&](const Obj& p, const Obj& q, const char* rel, const std::string& what, double extra = 0) {
     for (int i = 0; i < 3; ++i) {
       double x, y, g, k, x2, y2, g2, k2; p.Fwd(true, 3, tl[i], lon, x, y, g, k); q.Fwd(true, 3, tl[i], lon, x2, y2, g2, k2);
       if (!(std::isfinite(x) && std::isfinite(y))) continue;
-      double dd = std::hypot(x - x2, y - y2), tol = 2 * tol_plane(c, std::hypot(x, y), k);
-      if (!(dd <= tol && std::fabs(k - k2) <= 1e-12 * k)) { bad(rel, what + ": at lat " + num(tl[i]) + " positions differ by " + num(dd) + " m (tolerance " + num(tol) + "), k " + num(k) + " vs " + num(k2)); return; }
+      double dd = std::hypot(x - x2, y - y2), tol = 2 * tol_plane(c, std::hypot(x, y), k) + extra * (std::hypot(x, y) + c.a);
+      if (!(dd <= tol && std::fabs(k - k2) <= (1e-12 + extra) * k)) { bad(rel, what + ": at lat " + num(tl[i]) + " positions differ by " + num(dd) + " m (tolerance " + num(tol) + "), k " + num(k) + " vs " + num(k2)); return; }
     }
   };
   // prescribed scale: on the standard parallels (no SetScale) or at the SetScale latitude
   if (c.cls != 0 && !c.ss && documented_domain(c)) {
     for (double l : {l1, l2}) if (c.kind != 3 && std::cos(l * Math::degree()) > 1e-3) {
       double x, y, g, k; o.Fwd(true, 0, l, 0, x, y, g, k);
-      if (!(std::fabs(k - c.k1) <= 1e-12 * c.k1)) bad("scale-on-standard-parallel", "k(" + num(l) + ") = " + num(k) + ", prescribed " + num(c.k1));
+      if (!(std::fabs(k - c.k1) <= krel_at(P, c, l) * c.k1)) bad("scale-on-standard-parallel", "k(" + num(l) + ") = " + num(k) + ", prescribed " + num(c.k1));
     }
   }
   if (c.ss) {
     double x, y, g, k; o.Fwd(true, 0, c.sslat, 0, x, y, g, k);
-    if (!(std::fabs(k - c.ssk) <= 1e-12 * c.ssk)) bad("setscale-scale", "after SetScale(" + num(c.sslat) + ", " + num(c.ssk) + ") the scale there is " + num(k));
+    if (!(std::fabs(k - c.ssk) <= krel_at(P, c, c.sslat) * c.ssk)) bad("setscale-scale", "after SetScale(" + num(c.sslat) + ", " + num(c.ssk) + ") the scale there is " + num(k));
   }
   if (c.cls == 0) {
     if (!c.ss && !(o.k0() == c.k1)) bad("central-scale", "CentralScale");
@@ -257,10 +271,11 @@ static Reg r_cfg("cfgprops", [](const Args& a) {
   // SetScale(stdlat, k) on a k1 = 1 object is the constructor with k1 = k (one-parallel or two-parallel)
   if (!c.ss && std::cos(l1 * Math::degree()) > 1e-3 && documented_domain(c)) {
     Cfg c2 = c; c2.ss = 1; c2.sslat = l1; c2.ssk = c.k1; c2.k1 = 1; Obj o2;
-    if (c.kind != 3 && build(c2, o2).empty()) same_proj(o, o2, "setscale-vs-constructor", "constructor(k1) vs constructor(1) + SetScale(stdlat1, k1)");
+    if (c.kind != 3 && build(c2, o2).empty()) same_proj(o, o2, "setscale-vs-constructor", "constructor(k1) vs constructor(1) + SetScale(stdlat1, k1)", krel_at(P, c, l1));
   }
-  // mirror law: the cone with negated parallels at the negated latitude is the mirror image
-  {
+  // mirror law: the cone with negated parallels at the negated latitude is the mirror image (SetScale at the pole of
+  // a polar cone is judged by setscale-polar-hemisphere)
+  if (!(c.ss && std::fabs(c.sslat) == 90)) {
     Cfg cm = c; if (c.kind == 3) { cm.p[0] = -c.p[0]; cm.p[2] = -c.p[2]; } else { cm.p[0] = -c.p[0]; cm.p[1] = -c.p[1]; } cm.sslat = -c.sslat; Obj om;
     std::string em = build(cm, om); if (!em.empty()) bad("mirror", "mirrored configuration rejected");
     else for (int i = 0; i < 3; ++i) {
